@@ -1220,9 +1220,10 @@ def crs_churn_stream(R: Run, geom, GeoBox, GeoboxTiles, Affine):
                      f"after {n_seen}+ CRSs in the process: tiles {sorted(got - may)} are away from the query", sig="churn|extra")
         gc.collect()
         # dependency graphs from UTM rasters of random zones to the world rasters, judged by dense independent sampling
-        for _k in range(R.pick(3, 12)):
-            zone = rng.randint(1, 60)
-            south = rng.random() < 0.5
+        zones = [(rng.randint(1, 60), rng.random() < 0.5) for _k in range(R.pick(3, 12))]
+        if R.match_known(GLOBAL_RASTER_KEY) is not None:
+            zones += [(60, True), (1, False)]     # next to the antimeridian, where the padded global footprint wraps
+        for zone, south in zones:
             code = f"EPSG:{(32700 if south else 32600) + zone}"
             y0 = rng.choice([7_000_000, 8_000_000]) if south else rng.choice([1_000_000, 3_000_000, 5_000_000])
             ugb = GeoBox.from_bbox(geom.BoundingBox(300_000, y0, 700_000, y0 + 400_000, code), resolution=2000)
@@ -1478,19 +1479,33 @@ def snap_cases(R: Run, Affine):
 
 
 def run(R: Run):
+    import traceback
+
     Affine, geom, GeoBox, GeoboxTiles = _import()
-    box_queries(R, geom, GeoBox, GeoboxTiles, Affine)
-    geom_queries(R, geom, GeoBox, GeoboxTiles, Affine)
-    snap_cases(R, Affine)
-    grid_pairs(R, geom, GeoBox, GeoboxTiles, Affine)
-    stateful_sequences(R, geom, GeoBox, GeoboxTiles, Affine)
+
+    def stream(fn, *args):
+        """an exception of the real code escaping a stream is reported (with the place) and the other streams still run"""
+        try:
+            fn(*args)
+        except Exception as e:  # pylint: disable=broad-except
+            tb = traceback.extract_tb(e.__traceback__)
+            where = [f"{f.filename.split('/')[-1]}:{f.lineno} {f.name}" for f in tb if "/harness/" not in f.filename][-3:]
+            R.oracle(False, "unexpected-exception", {"stream": fn.__name__, "exception": repr(e)[:200], "raised_in": where,
+                                                     "called_from": [f"{f.lineno} {f.line}" for f in tb if "/harness/" in f.filename][-1:]},
+                     f"{fn.__name__}: the real code raised {e!r}", sig="unexpected-exception")
+
+    stream(box_queries, R, geom, GeoBox, GeoboxTiles, Affine)
+    stream(geom_queries, R, geom, GeoBox, GeoboxTiles, Affine)
+    stream(snap_cases, R, Affine)
+    stream(grid_pairs, R, geom, GeoBox, GeoboxTiles, Affine)
+    stream(stateful_sequences, R, geom, GeoBox, GeoboxTiles, Affine)
     # from here on the process has seen several hundred CRSs (long-lived service); more churn is interleaved
-    crs_churn_stream(R, geom, GeoBox, GeoboxTiles, Affine)
-    crs_kinds_stream(R, geom, GeoBox, GeoboxTiles, Affine)
+    stream(crs_churn_stream, R, geom, GeoBox, GeoboxTiles, Affine)
+    stream(crs_kinds_stream, R, geom, GeoBox, GeoboxTiles, Affine)
     crs_churn(R.rng, 80)
-    curved_queries(R, geom, GeoBox, GeoboxTiles, Affine)
+    stream(curved_queries, R, geom, GeoBox, GeoboxTiles, Affine)
     crs_churn(R.rng, 80)
-    large_cross_crs(R, geom, GeoBox, GeoboxTiles, Affine)
+    stream(large_cross_crs, R, geom, GeoBox, GeoboxTiles, Affine)
     R.exhaustive = False
     R.assumptions.append("shapely `disjoint` / `intersection` and pyproj are trusted oracles and model parameters")
     R.assumptions.append("tolerances of snap_affine / is_affine_st are passed as the exact rational value of the doubles")
